@@ -440,6 +440,7 @@ Definition unop (op : Z) (v : value) : M value :=
          | None => ret (num (of_int (-1)))
          end
   else if op =? 11 then a <- to_number_v v ;; ret (num (of_int (d_uint32 d a)))  (* v >>> 0 *)
+  else if op =? 12 then s <- to_string_v v ;; ret (num (of_int (Z.of_nat (length s))))  (* String(v).length: 15.5.5.1, code units *)
   else decl.
 
 (* ---------- expressions ---------- *)
